@@ -352,6 +352,7 @@ def rules(ctx):
         Rule("R16.d", "the comptime arguments bound to a call are the ones evaluated for that call (no other supplier)", 3, r16d),
         Rule("R16.e", "a location's function id is its own: the function table is asked and written under the location in hand only, with a function declared for it", 7, r16e),
         Rule("R16.f", "evaluate_comptime_args stores and returns fresh arena entries made from this call's arguments, never the enclosing instantiation's own arguments", 2, r16f),
+        Rule("R16.g", "two instantiations of one generic nominal declaration are different types: can_fit_into evaluated on same-uid / different-argument pairs (shared with C13 R13.a)", 20, _reuse("c13", "r13a")),
         Rule("R15.f", "a comptime parameter evaluates to the comptime argument at its comptime_idx (shared with C15)", 2, _reuse("c15", "r15f")),
         Rule("R27.e", "every Mangle impl evaluated down to the parts list: the generic id of an instantiation is present on every branch (shared with C27)", 20, _reuse("c27", "r27e")),
     ]
